@@ -261,6 +261,34 @@ void misc_string_ops(Enumerator &E) {
                     E.cell(nm("decode", std::string(b64 ? "base64" : "hex") + (corrupt ? ",corrupted" : ""), std::string("raw=") + L(LC16[ti], 16) + ",dst=" + L(LC16[di], 16)), b, ts);
                 }
         }
+    // std::filesystem::path in and out, the self-aliasing assignments, the stored "..."_stfmt formatter
+    for (int ti = 0; ti < 5; ti++)
+        for (int di = 0; di < 5; di++) {
+            for (unsigned form = 0; form < 7; form++)
+                for (int corrupt = 0; corrupt < 2; corrupt++) {
+                    if (di && form >= 3 && form != 5) continue;
+                    Builder b; uint32_t d = b.str(LC16[di]); if (form == 5) b.ss(di ? 300 : 0);
+                    Op o; o.kind = S_PATH; o.a = form == 5 ? 0 : d; o.b = SRC + 6; o.c = LC16[ti]; o.d = form;
+                    if (corrupt) { o.fault = F_CORRUPT; o.fc = 1 | ((LC16[ti] / 2) << 8); }
+                    size_t ts = b.target(o);
+                    E.cell(nm("path", "form" + std::to_string(form) + (corrupt ? ",corrupted" : ""), std::string("path=") + L(LC16[ti], 16) + ",dst=" + L(LC16[di], 16)), b, ts);
+                }
+            if (di == 0)
+                for (unsigned form = 0; form < 7; form++)
+                    for (unsigned off = 0; off < 2; off++) {
+                        Builder b; uint32_t d = b.str(LC16[ti]);
+                        Op o; o.kind = S_SELF_ALIAS; o.a = d; o.b = off ? 1003 : 0; o.c = 1000; o.d = form;
+                        size_t ts = b.target(o);
+                        E.cell(nm("self_alias", "form" + std::to_string(form) + (off ? ",mid" : ",start"), std::string("dst=") + L(LC16[ti], 16)), b, ts);
+                    }
+            for (unsigned slot = 0; slot < 4; slot++)
+                for (int missing = 0; missing < 2; missing++) {
+                    Builder b; uint32_t x = b.str(LC16[ti]); uint32_t y = b.str(LC16[di]);
+                    Op o; o.kind = S_STFMT; o.a = x; o.b = y; o.c = slot; if (missing) { o.fault = F_CORRUPT; o.fc = 1; }
+                    size_t ts = b.target(o);
+                    E.cell(nm("stfmt", "slot" + std::to_string(slot) + (missing ? ",missing_arg" : ""), std::string("a1=") + L(LC16[ti], 16) + ",a2=" + L(LC16[di], 16)), b, ts);
+                }
+        }
     // stream extraction into an existing string (narrow and wide source) and stream insertion
     for (int ti = 0; ti < 5; ti++) {
         for (int di = 0; di < 5; di++)
@@ -345,7 +373,7 @@ void stream_ops(Enumerator &E) {
             { Builder b; uint32_t s = b.ss(sz); Op o; o.kind = SS_APPEND; o.a = s; o.b = SRC; o.c = add; size_t ts = b.target(o); E.cell(nm("ss_append", "", cl), b, ts); }
             { Builder b; uint32_t s = b.ss(sz); Op o; o.kind = SS_APPEND_AUTO; o.a = s; o.b = 0; o.c = add; size_t ts = b.target(o); E.cell(nm("ss_append_auto", "", cl), b, ts); }
             { Builder b; uint32_t s = b.ss(sz); Op o; o.kind = SS_APPEND_CHAR; o.a = s; o.b = 3; o.c = add; size_t ts = b.target(o); E.cell(nm("ss_append_char", "", cl), b, ts); }
-            for (unsigned form = 0; form < 17; form++)
+            for (unsigned form = 0; form < 18; form++)
                 for (int corrupt = 0; corrupt < 2; corrupt++) {
                     if (corrupt && !(form == 1 || form == 2 || form == 3 || form == 7)) continue;
                     Builder b; uint32_t s = b.ss(sz); Op o; o.kind = SS_SHL_TEXT; o.a = s; o.b = 0; o.c = add; o.d = form;
